@@ -90,3 +90,36 @@ func TestCellsPrograms(t *testing.T) {
 		}
 	}
 }
+
+// TestImplErrPrograms: the tables the implerr family is generated from agree with the templates the
+// harness host offers (an impl block written without faults is accepted: no error diagnostics), and
+// every faulty program is rejected with at least two error diagnostics.
+func TestImplErrPrograms(t *testing.T) {
+	errorsOf := func(b Built) (n int, text string) {
+		a := analyze(b.Src, true)
+		for _, l := range diagLines(a.Diags, false) {
+			if strings.HasPrefix(l, "3|") {
+				n++
+			}
+			text += l + "\n"
+		}
+		return n, text
+	}
+	kinds := map[string]int{}
+	for seed := uint64(1); seed <= 300; seed++ {
+		clean, _ := buildImplErr(fw.NewRng(seed), false)
+		if n, text := errorsOf(clean); n != 0 {
+			t.Errorf("seed %d: an impl block without faults is rejected\n%s\n%s", seed, text, clean.Src["main"])
+		}
+		bad, faults := buildImplErr(fw.NewRng(seed), true)
+		if n, text := errorsOf(bad); n < 2 {
+			t.Errorf("seed %d: faults %v, but %d error diagnostics\n%s\n%s", seed, faults, n, text, bad.Src["main"])
+		}
+		for _, fs := range faults {
+			for _, f := range fs {
+				kinds[f]++
+			}
+		}
+	}
+	t.Log(kinds)
+}
